@@ -329,7 +329,7 @@ func (sp *ServerPool) buildResponseFromCache(spCtx *serverPoolContext) (hit bool
 
 func (sp *ServerPool) handle(ctx *context.Context, mirror bool) (result string)
   flag allocates
-  flag frame=unchecked
+  modifies allof("elem<string>"), allof("filters/proxy.roundRobinLoadBalancer.counter"), allof("ghost:.gzClosed"), allof("ghost:.gzFed"), allof("ghost:.limN"), allof("ghost:.limUnder"), allof("ghost:.rdRem"), allof("ghost:github.com/megaease/easegress/pkg/context.outResp"), allof("ghost:github.com/megaease/easegress/pkg/context.outRespTyp"), allof("ghost:github.com/megaease/easegress/pkg/filters/proxy.gAttemptResp"), allof("ghost:github.com/megaease/easegress/pkg/filters/proxy.gAttempts"), allof("ghost:github.com/megaease/easegress/pkg/filters/proxy.gBackendStatus"), allof("ghost:github.com/megaease/easegress/pkg/filters/proxy.gBuildFailed"), allof("ghost:github.com/megaease/easegress/pkg/filters/proxy.gCBWrapAt"), allof("ghost:github.com/megaease/easegress/pkg/filters/proxy.gCacheHit"), allof("ghost:github.com/megaease/easegress/pkg/filters/proxy.gCloned"), allof("ghost:github.com/megaease/easegress/pkg/filters/proxy.gClonedFrom"), allof("ghost:github.com/megaease/easegress/pkg/filters/proxy.gCtxErr#typ"), allof("ghost:github.com/megaease/easegress/pkg/filters/proxy.gCtxErr#val"), allof("ghost:github.com/megaease/easegress/pkg/filters/proxy.gDoCtx"), allof("ghost:github.com/megaease/easegress/pkg/filters/proxy.gFwdBody"), allof("ghost:github.com/megaease/easegress/pkg/filters/proxy.gFwdCtx"), allof("ghost:github.com/megaease/easegress/pkg/filters/proxy.gFwdMethod"), allof("ghost:github.com/megaease/easegress/pkg/filters/proxy.gFwdURL"), allof("ghost:github.com/megaease/easegress/pkg/filters/proxy.gInCtx"), allof("ghost:github.com/megaease/easegress/pkg/filters/proxy.gLastErr#typ"), allof("ghost:github.com/megaease/easegress/pkg/filters/proxy.gLastErr#val"), allof("ghost:github.com/megaease/easegress/pkg/filters/proxy.gLimit"), allof("ghost:github.com/megaease/easegress/pkg/filters/proxy.gNewReqHost"), allof("ghost:github.com/megaease/easegress/pkg/filters/proxy.gNoServer"), allof("ghost:github.com/megaease/easegress/pkg/filters/proxy.gPrepFailed"), allof("ghost:github.com/megaease/easegress/pkg/filters/proxy.gRetryWrapAt"), allof("ghost:github.com/megaease/easegress/pkg/filters/proxy.gSendFailed"), allof("ghost:github.com/megaease/easegress/pkg/filters/proxy.gShort"), allof("ghost:github.com/megaease/easegress/pkg/filters/proxy.gWrapCalls"), allof("map<string,[]string>#card"), allof("map<string,[]string>#dom"), allof("map<string,[]string>#val#arr"), allof("map<string,[]string>#val#cap"), allof("map<string,[]string>#val#len"), allof("net/http.Response.ContentLength"), allof("protocols/httpprot.Response.stream")
   requires sp != nil && sp.spec != nil && sp.proxy != nil && sp.proxy.spec != nil && isLB(sp.loadBalancer.v)
   requires compression-is-configured-whole: sp.proxy.compression != nil ==> sp.proxy.compression.spec != nil
   requires ctx != nil && ctx.span != nil && ctxInput(ref(ctx)) != 0
@@ -359,7 +359,7 @@ func (sp *ServerPool) handle(ctx *context.Context, mirror bool) (result string)
   ghost at call[1] handler: gShort := err == resilience.ErrShortCircuited
   closure[1] (stdctx stdcontext.Context) (err error)
     flag allocates
-    flag frame=unchecked
+    modifies allof("elem<string>"), allof("filters/proxy.roundRobinLoadBalancer.counter"), allof("filters/proxy.serverPoolContext.resp"), allof("filters/proxy.serverPoolContext.span#typ"), allof("filters/proxy.serverPoolContext.span#val"), allof("filters/proxy.serverPoolContext.stdReq"), allof("filters/proxy.serverPoolContext.stdResp"), allof("ghost:.gzClosed"), allof("ghost:.gzFed"), allof("ghost:.limN"), allof("ghost:.limUnder"), allof("ghost:.rdRem"), allof("ghost:github.com/megaease/easegress/pkg/context.outResp"), allof("ghost:github.com/megaease/easegress/pkg/context.outRespTyp"), allof("ghost:github.com/megaease/easegress/pkg/filters/proxy.gAttemptResp"), allof("ghost:github.com/megaease/easegress/pkg/filters/proxy.gAttempts"), allof("ghost:github.com/megaease/easegress/pkg/filters/proxy.gBackendStatus"), allof("ghost:github.com/megaease/easegress/pkg/filters/proxy.gBuildFailed"), allof("ghost:github.com/megaease/easegress/pkg/filters/proxy.gCloned"), allof("ghost:github.com/megaease/easegress/pkg/filters/proxy.gClonedFrom"), allof("ghost:github.com/megaease/easegress/pkg/filters/proxy.gCtxErr#typ"), allof("ghost:github.com/megaease/easegress/pkg/filters/proxy.gCtxErr#val"), allof("ghost:github.com/megaease/easegress/pkg/filters/proxy.gDoCtx"), allof("ghost:github.com/megaease/easegress/pkg/filters/proxy.gFwdBody"), allof("ghost:github.com/megaease/easegress/pkg/filters/proxy.gFwdCtx"), allof("ghost:github.com/megaease/easegress/pkg/filters/proxy.gFwdMethod"), allof("ghost:github.com/megaease/easegress/pkg/filters/proxy.gFwdURL"), allof("ghost:github.com/megaease/easegress/pkg/filters/proxy.gInCtx"), allof("ghost:github.com/megaease/easegress/pkg/filters/proxy.gLastErr#typ"), allof("ghost:github.com/megaease/easegress/pkg/filters/proxy.gLastErr#val"), allof("ghost:github.com/megaease/easegress/pkg/filters/proxy.gLimit"), allof("ghost:github.com/megaease/easegress/pkg/filters/proxy.gNewReqHost"), allof("ghost:github.com/megaease/easegress/pkg/filters/proxy.gNoServer"), allof("ghost:github.com/megaease/easegress/pkg/filters/proxy.gPrepFailed"), allof("ghost:github.com/megaease/easegress/pkg/filters/proxy.gSendFailed"), allof("map<string,[]string>#card"), allof("map<string,[]string>#dom"), allof("map<string,[]string>#val#arr"), allof("map<string,[]string>#val#cap"), allof("map<string,[]string>#val#len"), allof("net/http.Response.ContentLength"), allof("protocols/httpprot.Response.stream")
     requires sp != nil && sp.spec != nil && sp.proxy != nil && sp.proxy.spec != nil && isLB(sp.loadBalancer.v)
     requires compression-is-configured-whole: sp.proxy.compression != nil ==> sp.proxy.compression.spec != nil
     requires ctx != nil && ctx.span != nil && spCtx != nil && spCtx.Context == ctx && spCtx.req != nil && spCtx.req.Request != nil && spCtx.req.Request.URL != nil && spCtx.req.Request.Header != nil
@@ -401,7 +401,7 @@ func (sp *ServerPool) handle#cancel()
 
 // ---- C13: wiring of resilience policies named by a pool ----
 func (sp *ServerPool) InjectResiliencePolicy(policies map[string]resilience.Policy)
-  flag frame=unchecked
+  modifies allof("filters/proxy.ServerPool.circuitBreakerWrapper#typ"), allof("filters/proxy.ServerPool.circuitBreakerWrapper#val"), allof("filters/proxy.ServerPool.retryWrapper#typ"), allof("filters/proxy.ServerPool.retryWrapper#val"), allof("ghost:github.com/megaease/easegress/pkg/resilience.gCBPolicy"), allof("ghost:github.com/megaease/easegress/pkg/util/circuitbreaker.clock"), allof("resilience.RetryPolicy.waitDuration")
   requires sp != nil && sp.spec != nil
   requires policies-are-objects: forall k string :: k in policies ==> ifaceVal(policies[k]) != 0
   requires circuit-breaker-policies-passed-validation: forall k string :: k in policies && typeIs(policies[k], "*resilience.CircuitBreakerPolicy") ==> resilience.cbDomain(as(policies[k], "*resilience.CircuitBreakerPolicy"))
